@@ -156,11 +156,12 @@ pub fn gen_set(r: &mut Rng, c: SetCfg) -> Vec<TFile> {
     let mut placed: Vec<(u32, u32)> = vec![]; // (start, len) of every block so far, all files
     let mut next_free: u32 = 0x3000 + r.below(0x800) as u32;
     for (i, fr) in roles.into_iter().enumerate() {
-        let nb = 1 + r.below(2) as usize;
+        let deep = r.deep() as usize;
+        let nb = 1 + r.below(2) as usize + (deep > 1) as usize;
         let mut blocks = vec![];
         let mut own: Vec<(u32, u32)> = vec![];
         for _ in 0..nb {
-            let nst = 1 + r.below(8) as usize;
+            let nst = (1 + r.below(8) as usize) * deep;
             let mut orig = next_free;
             if c.overlaps && !placed.is_empty() && r.chance(1, 4) {
                 let (ps, pl) = *r.pick(&placed);
